@@ -6134,6 +6134,16 @@ class Choice:
             if self.visibility:
                 _file = self.nodes[0].filename if self.nodes else None
                 _line = self.nodes[0].linenr if self.nodes else None
+                # The default selection from sdkconfig cannot be kept (it is not visible any more), but the
+                # difference from the Kconfig default selection is still a default value mismatch.
+                hidden_y_syms = [sym for sym in self.syms if sym._sdkconfig_value == "y" and sym._loaded_as_default]
+                if hidden_y_syms and self.selection is not hidden_y_syms[-1]:
+                    self.kconfig.report.add_record(
+                        DefaultValuesArea,
+                        sym_or_choice=self,
+                        sdkconfig_selection=hidden_y_syms[-1].name,
+                        record_type="choice",
+                    )
                 if self.selection:
                     log.note(
                         f"{_file}:{_line}: "
